@@ -273,7 +273,9 @@ def ddmin_list(items):
 
 # ----------------------------------------------------------------- replay
 def write_replay(prop, scen, v, seed, digest):
-    d = os.path.join(VERIF_DIR, "replays")
+    from simkit import boot
+    d = os.path.join(VERIF_DIR, "replays") if boot.REPO == "/repo" else \
+        os.path.join(os.environ.get("VERIF_SCRATCH_EVIDENCE", "/dev/shm"), "verif_scratch_replays")
     os.makedirs(d, exist_ok=True)
     name = "%s-%s-%d.json" % (prop, v["class"].split(".", 1)[-1], seed)
     path = os.path.join(d, name)
@@ -556,7 +558,13 @@ def _trim(scen, limit=6000):
 
 
 def write_evidence(prop, agg):
-    d = os.path.join(VERIF_DIR, "evidence")
+    from simkit import boot
+    if boot.REPO != "/repo":
+        # a run against a scratch copy (sensitivity experiments) says nothing about /repo:
+        # its evidence goes next to the scratch results, never into evidence/
+        d = os.path.join(os.environ.get("VERIF_SCRATCH_EVIDENCE", "/dev/shm"), "verif_scratch_evidence")
+    else:
+        d = os.path.join(VERIF_DIR, "evidence")
     os.makedirs(d, exist_ok=True)
     path = os.path.join(d, "%s.json" % prop)
     tmp = path + ".tmp"
